@@ -110,17 +110,7 @@ func cmdCheck(args []string) {
 			continue
 		}
 		fnList = append(fnList, k)
-		// automatic vacuity canaries
-		entry := &Obligation{Name: g.fnShort() + "/canary:entry-reachable", Kind: "canary", Fn: k, PrefixLen: g.entryPrefix, PC: "true", Goal: "false", Canary: true, Script: g.sc}
-		obls = append(obls, entry)
-		if len(g.rets) > 0 {
-			var pcs []string
-			for _, rp := range g.rets {
-				pcs = append(pcs, rp.st.pc)
-			}
-			exit := &Obligation{Name: g.fnShort() + "/canary:exit-reachable", Kind: "canary", Fn: k, PrefixLen: len(g.sc.lines), PC: "(or " + strings.Join(pcs, " ") + " false)", Goal: "false", Canary: true, Script: g.sc}
-			obls = append(obls, exit)
-		}
+		obls = append(obls, g.autoCanaries()...)
 		obls = append(obls, g.obls...)
 		for a := range g.assumptions {
 			assumptions[a] = true
@@ -151,7 +141,19 @@ func cmdCheck(args []string) {
 		structural = append(structural, sc(eng)...)
 	}
 
-	results := SolveAll(obls, SolveOpts{Solvers: solverList, TimeoutS: timeout, Workdir: work, Parallel: 6})
+	skippedSlow := 0
+	if *tier != "thorough" {
+		var keep []*Obligation
+		for _, o := range obls {
+			if o.Slow {
+				skippedSlow++
+				continue
+			}
+			keep = append(keep, o)
+		}
+		obls = keep
+	}
+	results := SolveAll(obls, SolveOpts{Solvers: solverList, TimeoutS: timeout, Workdir: work, Parallel: 8})
 	results = append(results, structural...)
 
 	known := loadKnown(filepath.Join(verif, "known_findings.json"))
@@ -270,6 +272,7 @@ func cmdCheck(args []string) {
 			"engine_notes":             notes,
 			"undecided_clauses":        undecidedClauses[pid],
 			"contract_files":           eng.db.Files,
+			"slow_obligations_left_to_thorough_tier": skippedSlow,
 		}}
 	os.MkdirAll(filepath.Join(verif, "evidence"), 0755)
 	b, _ := json.MarshalIndent(ev, "", " ")
@@ -349,3 +352,13 @@ func writeReplay(work, pid string, r Result) string {
 type scanFn func(eng *Engine) []Result
 
 var propScans = map[string][]scanFn{}
+
+// autoCanaries: reachability of the entry (requires satisfiable) and of every return point.
+func (g *Gen) autoCanaries() []*Obligation {
+	k := g.fn.String()
+	out := []*Obligation{{Name: g.fnShort() + "/canary:entry-reachable", Kind: "canary", Fn: k, PrefixLen: g.entryPrefix, PC: "true", Goal: "false", Canary: true, Script: g.sc}}
+	for i, rp := range g.rets {
+		out = append(out, &Obligation{Name: fmt.Sprintf("%s/canary:return%d-reachable", g.fnShort(), i+1), Kind: "canary", Fn: k, PrefixLen: len(g.sc.lines), PC: rp.st.pc, Goal: "false", Canary: true, Script: g.sc})
+	}
+	return out
+}
